@@ -319,7 +319,13 @@ func (g *vpGen) args(proc uint32) []byte {
 	case NFSPROC3_GETATTR, NFSPROC3_READLINK, NFSPROC3_FSSTAT, NFSPROC3_FSINFO, NFSPROC3_PATHCONF:
 		b.fh(g.fh("fh"))
 	case NFSPROC3_SETATTR:
-		b.fh(g.fh("fh")).sattr(g.sattr("sattr")).u32(0)
+		b.fh(g.fh("fh")).sattr(g.sattr("sattr"))
+		// sattrguard3: absent, or a ctime the object may or may not still have
+		if !g.fixed && vpBool("guard") {
+			b.u32(1).u32(vpU32("guard.sec")).u32(vpU32("guard.nsec"))
+		} else {
+			b.u32(0)
+		}
 	case NFSPROC3_LOOKUP, NFSPROC3_REMOVE, NFSPROC3_RMDIR:
 		b.fh(g.fh("fh")).str(g.name("name"))
 	case NFSPROC3_ACCESS:
